@@ -466,17 +466,9 @@ def run(ctx):
     nsim = 60 if quick else 1500
     scheds = []
     for rolename, rdef in [("Mixed", "RoleMixed"), ("Def", "RoleDef"), ("AllLoad", "RoleAllLoad")]:
-        cfgp = os.path.join(tlc.SPECS, "MC_Cache_gen_%s.cfg" % rolename)
-        with open(os.path.join(tlc.SPECS, "MC_Cache_gen.cfg")) as f:
-            txt = f.read().replace("Role <- RoleMixed", "Role <- " + rdef)
-        with open(cfgp, "w") as f:
-            f.write(txt)
-        try:
-            r = ctx.tlc("MC_Cache", "MC_Cache_gen_%s.cfg" % rolename, workers=1, mode="simulate",
-                        simulate="num=%d" % nsim, depth=80, seed=ctx.seed + 17, label="schedule generation " + rolename,
-                        timeout=600)
-        finally:
-            os.remove(cfgp)
+        r = ctx.tlc("MC_Cache", ctx.cfg("MC_Cache_gen.cfg", ("Role <- RoleMixed", "Role <- " + rdef)), workers=1, mode="simulate",
+                    simulate="num=%d" % nsim, depth=80, seed=ctx.seed + 17, label="schedule generation " + rolename,
+                    timeout=600)
         seen = set()
         for j in r.json_lines:
             key = json.dumps([[h["p"], h["op"]] for h in j["hist"]])
